@@ -38,6 +38,9 @@ def run_variant(v):
         def ignore(path, names):
             return [n for n in names if n == "__pycache__" or n.endswith((".so", ".pyc"))]
         shutil.copytree(os.path.join(REPO, "matid"), dst, ignore=ignore)
+        if v.get("transform") == "rename_locals":
+            from . import twins
+            twins.rename_tree(os.path.join(REPO, "matid"), dst, suffix=v.get("suffix", "_r"), prefix=v.get("prefix", ""))
         for rel, old, new in v["edits"]:
             p = os.path.join(d, rel)
             s = open(p).read()
